@@ -150,37 +150,79 @@ def run_cfg(ctx, fx):
         f = fx.fn(s)
         if not ctx.require(f is not None, "R11.1", "setter:" + s, "builder setter %s not found" % s):
             continue
-        b = ctx.body(fx, f)
-        stores = b.partial.get(1, [])
-        good = False
-        for (_bi, _si, st) in stores:
-            r = st["r"]
-            if r["k"] != "use":
-                continue
-            if kind == "Some":
-                for o in b.origins(r["o"]):
-                    if o.kind == "agg":
-                        ast = b.blocks[o.site[0]]["s"][o.site[1]]
-                        if ast["r"].get("variant") == "Some":
-                            good = all(x.kind == "arg" and x.site == 2 and not x.proj for x in roots(b, ast["r"]["ops"][0]))
-            if kind == "flag":
-                good = all(x.kind == "arg" and x.site == 2 and not x.proj for x in roots(b, r["o"]))
-                if not good:
-                    # ... or re-encoded as a two-variant enum by a crate-local pure function of the argument alone
-                    os_ = b.origins(r["o"], through_calls=False)
-                    if len(os_) == 1 and next(iter(os_)).kind == "call":
-                        ct = b.call_at(next(iter(os_)))
-                        g_ = fx.callee_fn(ct)
-                        bm = nfa.bool_enum_map(fx, g_) if g_ is not None else None
-                        if bm is not None and not bm["proj"] and bm["param"] < len(ct["args"]):
-                            good = all(x.kind == "arg" and x.site == 2 and not x.proj for x in roots(b, ct["args"][bm["param"]]))
-                # which field of the configuration holds the flag (by what this setter writes, not by its name)
-                pr_ = [e for e in st["p"][1:] if e != "*"]
-                if good and pr_:
-                    flag_fields.add(pr_[-1])
-        returns_self = all(x.kind == "arg" and x.site == 1 for x in roots(b, {"k": "move", "p": [0]}) if not (x.proj and str(x.proj[0]).startswith("<part:")))
-        always = len(stores) == 1 and b.on_all_paths_to_return(stores[0][0])
-        ctx.require(good and len(stores) == 1 and returns_self and always, "R11.1", "setter:" + s.split("::", 2)[-1], "the setter must store its argument unmodified in the builder's config and return the builder", fn=s, site=f["loc"])
+        import inline
+
+        def judge(b, flag_fields=flag_fields, kind=kind):
+            stores = b.partial.get(1, [])
+            good = False
+            for (_bi, _si, st) in stores:
+                r = st["r"]
+                if r["k"] != "use":
+                    continue
+                # the whole configuration written back with one field replaced (`Self { timeout: Some(timeout), ..self }`): every
+                # other field is the one that was there
+                aggs_ = [o for o in b.origins(r["o"]) if o.kind == "agg" and not o.proj]
+                if len(aggs_) == 1 and len(b.origins(r["o"])) == 1:
+                    ast_ = b.blocks[aggs_[0].site[0]]["s"][aggs_[0].site[1]]["r"]
+                    if ast_.get("ak") == "adt" and ast_.get("def") in fx.adts and len(fx.adts[ast_["def"]]["variants"]) == 1 and len(ast_.get("ops", [])) > 1:
+                        spath = [e for e in st["p"][1:] if e != "*"]
+                        changed = []
+                        for fi_, op_ in enumerate(ast_["ops"]):
+                            rs_ = [x for x in roots(b, op_) if x.kind != "local"]
+                            same = bool(rs_) and all(x.kind == "arg" and x.site == 1 and [e for e in x.proj if e != "*"] == spath + ["f%d" % fi_] for x in rs_)
+                            if not same:
+                                changed.append((fi_, op_))
+                        if len(changed) == 1:
+                            fi_, op_ = changed[0]
+                            if kind == "Some":
+                                for o in b.origins(op_):
+                                    if o.kind == "agg":
+                                        a2 = b.blocks[o.site[0]]["s"][o.site[1]]
+                                        if a2["r"].get("variant") == "Some":
+                                            good = all(x.kind == "arg" and x.site == 2 and not x.proj for x in roots(b, a2["r"]["ops"][0]))
+                            else:
+                                good = all(x.kind == "arg" and x.site == 2 and not x.proj for x in roots(b, op_))
+                                if good:
+                                    flag_fields.add("f%d" % fi_)
+                            if good:
+                                continue
+                if kind == "Some":
+                    for o in b.origins(r["o"]):
+                        if o.kind == "agg":
+                            ast = b.blocks[o.site[0]]["s"][o.site[1]]
+                            if ast["r"].get("variant") == "Some":
+                                good = all(x.kind == "arg" and x.site == 2 and not x.proj for x in roots(b, ast["r"]["ops"][0]))
+                if kind == "flag":
+                    good = all(x.kind == "arg" and x.site == 2 and not x.proj for x in roots(b, r["o"]))
+                    if not good:
+                        # ... or re-encoded as a two-variant enum by a crate-local pure function of the argument alone
+                        os_ = b.origins(r["o"], through_calls=False)
+                        if len(os_) == 1 and next(iter(os_)).kind == "call":
+                            ct = b.call_at(next(iter(os_)))
+                            g_ = fx.callee_fn(ct)
+                            bm = nfa.bool_enum_map(fx, g_) if g_ is not None else None
+                            if bm is not None and not bm["proj"] and bm["param"] < len(ct["args"]):
+                                good = all(x.kind == "arg" and x.site == 2 and not x.proj for x in roots(b, ct["args"][bm["param"]]))
+                    # which field of the configuration holds the flag (by what this setter writes, not by its name)
+                    pr_ = [e for e in st["p"][1:] if e != "*"]
+                    if good and pr_:
+                        flag_fields.add(pr_[-1])
+            rr_ = [x for x in roots(b, {"k": "move", "p": [0]}) if not (x.proj and str(x.proj[0]).startswith("<part:")) and x.kind != "local"]
+            # (what is returned is the builder it was given — with the stored piece, made of the builder and the argument, in it)
+            def _from_args(x):
+                if x.kind == "arg":
+                    return x.site in (1, 2)
+                if x.kind == "agg":  # `Some(timeout)`
+                    a3 = b.blocks[x.site[0]]["s"][x.site[1]]["r"]
+                    return all(y.kind == "arg" and y.site == 2 for op3 in a3.get("ops", []) for y in roots(b, op3))
+                return False
+            returns_self = any(x.kind == "arg" and x.site == 1 and not x.proj for x in rr_) and all(_from_args(x) for x in rr_)
+            always = len(stores) == 1 and b.on_all_paths_to_return(stores[0][0])
+            return good and len(stores) == 1 and returns_self and always
+        # the setter as written, or — when it goes through a by-value helper of the configuration
+        # (`self.config = self.config.with_timeout(timeout)`) — with that helper inlined
+        verdict = judge(ctx.body(fx, f)) or judge(inline.body(ctx, fx, f, inline.not_public))
+        ctx.require(verdict, "R11.1", "setter:" + s.split("::", 2)[-1], "the setter must store its argument unmodified in the builder's config and return the builder", fn=s, site=f["loc"])
     for term in ("actor::builder::ActorBuilderWithChannel::<A, P, R>::spawn", "actor::builder::ActorBuilderWithChannel::<A, P, R>::spawn_owning"):
         f = fx.fn(term)
         if not ctx.require(f is not None, "R11.1", "terminal:" + term, "terminal not found"):
@@ -188,8 +230,12 @@ def run_cfg(ctx, fx):
         # the call that gives the environment its configuration: `.with_config(config)` or a constructor taking it
         def takes_config(t):
             return bool(t.get("callee_local")) and any(a == "environment::EnvironmentConfig" for a in t.get("argtys", [])) and (t.get("destty") or "").startswith("environment::Environment<")
-        wf = graph.wiring_fn(fx, term, takes_config) or f
-        b = ctx.body(fx, wf)
+        def _builder_helpers(g, t):  # the builder's own private helpers, not the environment's functions that are looked for
+            return inline.not_public(g, t) and not g["def"].startswith("environment::")
+        b = inline.body(ctx, fx, f, _builder_helpers)  # (`let (actor, env) = self.into_parts();` configures the environment)
+        if not any(takes_config(t) for _, t in b.normal_calls()):
+            wf = graph.wiring_fn(fx, term, takes_config) or f
+            b = inline.body(ctx, fx, wf, _builder_helpers)
         wc = [t for _, t in b.normal_calls() if takes_config(t)]
         ok = len(wc) == 1 and all(x.kind == "arg" for x in roots(b, wc[0]["args"][wc[0]["argtys"].index("environment::EnvironmentConfig")]))
         # and the configured environment is the one whose loop is created
